@@ -6,11 +6,11 @@ CONSTANTS
   Tasks = {"t1"}
   QCap = 1
   Mode = "block_on"
-  Driver = "poll"
+  Driver = "iour"
   Eager = TRUE
   ArmInFlush = FALSE
   WakeAfterPush = TRUE
-  Overflow = FALSE
+  Overflow = TRUE
   MaxLen = 80
   LateRounds = 1
 SPECIFICATION GSpec
